@@ -120,3 +120,186 @@ Proof.
       all: try (exfalso; specialize (Hfile ltac:(assumption)); discriminate).
 Qed.
 End Sim.
+
+(* ---- from one poll to whole schedules ---- *)
+Lemma padvance_suffix : forall P c t rem kont l s,
+  exists pre, rem = pre ++ fst (fst (fst (padvance P c t rem kont l s))).
+Proof.
+  induction rem as [|[e k] rest IH]; intros kont l s.
+  - exists []. reflexivity.
+  - cbn [padvance].
+    destruct (match kont with [] => (p_entry P e, l0) | _ :: _ => (kont, l) end) as [kont0 li].
+    destruct (run_instrs (pfuel P) P c t k kont0 li s) as [l' s'|kont' l' s'|].
+    + destruct (IH [] l0 s') as [pre H]. exists ((e, k) :: pre). cbn. f_equal. exact H.
+    + exists []. reflexivity.
+    + exists []. reflexivity.
+Qed.
+
+Lemma okfull_suffix : forall full pre rem, okfull full (pre ++ rem) -> okfull full rem.
+Proof. intros full pre rem H F. specialize (H F). apply Forall_app in H. apply H. Qed.
+
+Definition psim (full : bool) (ps : pstate) (ms : state) : Prop :=
+  (forall t, abs_task (ppcs ps t) = pcs ms t) /\ (forall t, bnd_task (ppcs ps t)) /\
+  (forall t, okfull full (fst (fst (ppcs ps t)))) /\ sh_eq full (psh ps) (sh ms).
+
+Lemma psim_poll : forall full c t ps ms,
+  psim full ps ms -> psim full (ppoll canon c t ps) (poll c t ms).
+Proof.
+  intros full c t ps ms (Hpc & Hb & Hok & He).
+  unfold ppoll, poll.
+  destruct (ppcs ps t) as [[rem kont] l] eqn:Ept.
+  assert (Hm : pcs ms t = (map snd rem, phase_of kont l)).
+  { rewrite <- Hpc, Ept. reflexivity. }
+  rewrite Hm.
+  destruct (padvance canon c t rem kont l (psh ps)) as [p1 s1] eqn:Ep.
+  destruct (advance c t (map snd rem) (phase_of kont l) (sh ms)) as [[rem2 ph2] s2] eqn:Ea.
+  assert (Hb0 : bnd rem kont l). { specialize (Hb t). rewrite Ept in Hb. exact Hb. }
+  assert (Hok0 : okfull full rem). { specialize (Hok t). rewrite Ept in Hok. exact Hok. }
+  destruct (sim_advance full c t rem kont l (psh ps) (sh ms) Hok0 Hb0 He p1 s1 Ep rem2 ph2 s2 Ea)
+    as (A & B & C).
+  assert (Hsuf : okfull full (fst (fst p1))).
+  { destruct (padvance_suffix canon c t rem kont l (psh ps)) as [pre Hpre]. rewrite Ep in Hpre. cbn in Hpre.
+    apply (okfull_suffix full pre). rewrite <- Hpre. exact Hok0. }
+  unfold psim. cbn [ppcs psh pcs sh].
+  refine (conj _ (conj _ (conj _ C))); intro u; unfold upd; destruct (Nat.eqb u t); auto.
+Qed.
+
+Lemma psim_run_from : forall full c sched ps ms,
+  psim full ps ms ->
+  psim full (fold_left (fun s t => ppoll canon c t s) sched ps) (run_from c ms sched).
+Proof.
+  induction sched as [|t r IH]; intros ps ms H; cbn.
+  - exact H.
+  - apply IH. apply psim_poll. exact H.
+Qed.
+
+Definition sym_only (pc : pconfig) : Prop :=
+  Forall (Forall (fun l : lookup => is_file (fst l) = false)) (ptasks pc).
+
+Lemma psim_init : forall full pc, (full = true -> sym_only pc) -> psim full (pinit pc) (init (cfg pc)).
+Proof.
+  intros full pc Hs. unfold psim, pinit, init. cbn.
+  refine (conj _ (conj _ (conj _ _))).
+  - intro t. f_equal. exact (eq_sym (map_nth (map (@snd entry key)) (ptasks pc) [] t)).
+  - intro t. apply BStart.
+  - intros t F. specialize (Hs F). unfold sym_only in Hs.
+    destruct (Nat.lt_ge_cases t (length (ptasks pc))) as [Hlt|Hge].
+    + rewrite Forall_forall in Hs. apply Hs. apply nth_In. exact Hlt.
+    + rewrite nth_overflow by exact Hge. constructor.
+  - unfold sh_eq. cbn. repeat split; reflexivity.
+Qed.
+
+(* the interpreter running the canonical program is the model, poll for poll *)
+Theorem prun_refines : forall full pc sched,
+  (full = true -> sym_only pc) -> psim full (prun canon pc sched) (run (cfg pc) sched).
+Proof. intros. unfold prun, prun_from, run. apply psim_run_from. apply psim_init. assumption. Qed.
+
+(* ---- the property-level statements, transported ---- *)
+From RM Require Import C12.Proofs C12.Progress.
+
+Lemma ptask_done_abs : forall full ps ms t, psim full ps ms -> ptask_done ps t = task_done ms t.
+Proof.
+  intros full ps ms t (Hpc & _). unfold ptask_done, task_done. rewrite <- Hpc.
+  destruct (ppcs ps t) as [[rem kont] l]. cbn. destruct rem; reflexivity.
+Qed.
+
+Lemma pall_done_abs : forall full pc ps ms, psim full ps ms -> pall_done pc ps = all_done (cfg pc) ms.
+Proof.
+  intros full pc ps ms H. unfold pall_done, all_done, ntasks.
+  replace (length (tasks (cfg pc))) with (length (ptasks pc)) by (symmetry; apply map_length).
+  generalize (seq 0 (length (ptasks pc))). induction l as [|t r IH]; cbn; [reflexivity|].
+  rewrite (ptask_done_abs full ps ms t H), IH. reflexivity.
+Qed.
+
+Section Transport.
+Variable pc : pconfig.
+Variable sched : list task.
+Local Notation ps := (prun canon pc sched).
+Local Notation ms := (run (cfg pc) sched).
+
+Lemma sim0 : psim false ps ms.
+Proof. apply prun_refines. discriminate. Qed.
+
+(* the supplier (locate_symbols / the file closure's fetch) is entered at most once per slot, whatever mix of
+   fill_symbol / walk_frame / get_symbol_at_address / locate_file calls the tasks make *)
+Lemma p_at_most_once : forall k, psupplier_calls ps k <= 1.
+Proof.
+  intro k. destruct sim0 as (_ & _ & _ & He). destruct He as (_ & _ & Hc & _).
+  unfold psupplier_calls. rewrite Hc. apply (at_most_once (cfg pc)).
+Qed.
+
+Lemma p_same_outcome : forall t i k o,
+  ptask_result ps t i = Some (k, o) ->
+  o = outc (pbase pc) k /\ exists e, nth_error (nth t (ptasks pc) []) i = Some (e, k).
+Proof.
+  intros t i k o H. destruct sim0 as (_ & _ & _ & He). destruct He as (_ & _ & _ & Hr & _).
+  unfold ptask_result in H. rewrite Hr in H.
+  destruct (same_outcome (cfg pc) sched t i k o H) as [A B]. split; [exact A|].
+  cbn [cfg tasks] in B.
+  assert (E : nth t (map (map (@snd entry key)) (ptasks pc)) [] = map (@snd entry key) (nth t (ptasks pc) []))
+    by exact (map_nth (map (@snd entry key)) (ptasks pc) [] t).
+  rewrite E in B.
+  rewrite nth_error_map in B.
+  match type of B with option_map _ ?x = _ => destruct x as [[e k']|] eqn:Ex end; cbn in B; [|discriminate].
+  inversion B; subst. exists e. exact Ex.
+Qed.
+
+Lemma p_results_complete : forall t,
+  pall_done pc ps = true -> map fst (results (psh ps) t) = map snd (nth t (ptasks pc) []).
+Proof.
+  intros t Hd. rewrite (pall_done_abs false pc ps ms sim0) in Hd.
+  destruct sim0 as (_ & _ & _ & He). destruct He as (_ & _ & _ & Hr & _).
+  rewrite Hr. rewrite (results_complete (cfg pc) sched t Hd). cbn [cfg tasks].
+  exact (map_nth (map (@snd entry key)) (ptasks pc) [] t).
+Qed.
+
+Lemma p_exactly_once : forall k,
+  pall_done pc ps = true -> In k (concat (tasks (cfg pc))) -> psupplier_calls ps k = 1.
+Proof.
+  intros k Hd Hk. rewrite (pall_done_abs false pc ps ms sim0) in Hd.
+  destruct sim0 as (_ & _ & _ & He). destruct He as (_ & _ & Hc & _).
+  unfold psupplier_calls. rewrite Hc. apply (exactly_once_quiescent (cfg pc)); assumption.
+Qed.
+
+Lemma p_fair_finishes : forall T,
+  fair (length (ptasks pc)) T sched -> T * work (cfg pc) <= length sched -> pall_done pc ps = true.
+Proof.
+  intros T Hf Hl. rewrite (pall_done_abs false pc ps ms sim0).
+  apply (finish_fair (cfg pc) T); [|exact Hl].
+  unfold ntasks. cbn [cfg tasks]. rewrite map_length. exact Hf.
+Qed.
+
+(* a task of the canonical program is never stuck (no unwrap of None, no ill-formed continuation, fuel suffices) *)
+Lemma p_never_stuck : forall t, snd (fst (ppcs ps t)) <> [IAbort].
+Proof.
+  intro t. destruct sim0 as (_ & Hb & _). specialize (Hb t).
+  destruct (ppcs ps t) as [[rem kont] l]. cbn in *. inversion Hb; discriminate.
+Qed.
+
+(* symbol lookups only: the pending counters *)
+Hypothesis Hsym : sym_only pc.
+
+Lemma sim1 : psim true ps ms.
+Proof. apply prun_refines. intros _. exact Hsym. Qed.
+
+Lemma p_counters_bounded :
+  proc (psh ps) <= req (psh ps) /\ req (psh ps) <= distinct_keys (cfg pc).
+Proof.
+  destruct sim1 as (_ & _ & _ & He). destruct He as (_ & _ & _ & _ & H5).
+  destruct (H5 eq_refl) as (R & Q & _). rewrite R, Q. apply (counters_bounded (cfg pc)).
+Qed.
+
+Lemma p_counters :
+  pall_done pc ps = true -> req (psh ps) = distinct_keys (cfg pc) /\ proc (psh ps) = distinct_keys (cfg pc).
+Proof.
+  intro Hd. rewrite (pall_done_abs true pc ps ms sim1) in Hd.
+  destruct sim1 as (_ & _ & _ & He). destruct He as (_ & _ & _ & _ & H5).
+  destruct (H5 eq_refl) as (R & Q & _). rewrite R, Q. apply (counters_quiescent (cfg pc)). exact Hd.
+Qed.
+
+Lemma p_stats : forall lf, stats (psh ps) lf = stats (sh ms) lf.
+Proof.
+  destruct sim1 as (_ & _ & _ & He). destruct He as (_ & _ & _ & _ & H5).
+  destruct (H5 eq_refl) as (_ & _ & S). exact S.
+Qed.
+End Transport.
